@@ -53,9 +53,46 @@ def plan(tier: str, seed: int) -> list[dict[str, Any]]:
     n = common.NCPU // 2 * (1 if tier == "quick" else 3)
     a = common.split_even(progs, n)
     b = common.split_even(dist, n)
-    a[0] = directed() + a[0]
+    a[0] = directed() + directed_dist() + a[0]
     return [{"cases": a[i] + b[i], "idx": i, "nprocs": N_PROCS[tier],
              "hashseeds": [0, 1, 2, 3, 97, 12345][:N_PROCS[tier]]} for i in range(n)]
+
+
+def directed_dist() -> list[dict[str, Any]]:
+    """Two-rank programs in which SEVERAL stored arrays of an early part are needed by
+    several stored arrays of a later part and are not sent themselves: all of them are
+    promoted to part outputs (order of the generated names) -- with string tags."""
+    out = []
+    for j, k in enumerate((3, 5)):
+        items: list[dict[str, Any]] = []
+
+        def add(it: dict[str, Any], items: list[dict[str, Any]] = items) -> int:
+            it["id"] = len(items)
+            items.append(it)
+            return int(it["id"])
+        x = add({"rank": 0, "kind": "in", "name": "r0_x", "shape": [4]})
+        y = add({"rank": 1, "kind": "in", "name": "r1_y", "shape": [4]})
+        a_ = [add({"rank": 0, "kind": "op", "op": "mul", "args": [x, float(i + 2)],
+                   "stored": True}) for i in range(k)]
+        tot = a_[0]
+        for i in a_[1:]:
+            tot = add({"rank": 0, "kind": "op", "op": "add", "args": [tot, i], "stored": False})
+        t1, t2 = ["str", f"fwd{j}"], ["str", f"back{j}"]
+        s0 = add({"rank": 0, "kind": "send", "comm": 0, "dest": 1, "tag": t1, "data": tot,
+                  "stapled": x})
+        r1 = add({"rank": 1, "kind": "recv", "comm": 0, "src": 0, "tag": t1, "shape": [4]})
+        z = add({"rank": 1, "kind": "op", "op": "add", "args": [r1, y], "stored": False})
+        s1 = add({"rank": 1, "kind": "send", "comm": 1, "dest": 0, "tag": t2, "data": z,
+                  "stapled": y})
+        r0 = add({"rank": 0, "kind": "recv", "comm": 1, "src": 1, "tag": t2, "shape": [4]})
+        c_ = [add({"rank": 0, "kind": "op", "op": "add", "args": [r0, i], "stored": True})
+              for i in a_]
+        outs0 = {f"c{i}": c for i, c in enumerate(c_)}
+        outs0["h"] = s0
+        desc = {"nranks": 2, "n": 4, "items": items, "seed": 9900 + j, "pattern": "directed",
+                "outputs": {"0": outs0, "1": {"w": s1}}}
+        out.append({"kind": "dist", "desc": desc})
+    return out
 
 
 def directed() -> list[dict[str, Any]]:
